@@ -1,7 +1,8 @@
 // C02 driver: replays every input sequence enumerated by TLC (spec/Midpoint.tla)
 // on the real timemath / measurements functions under several value
 // embeddings and input orders, maps the results back to model units and
-// records them for MidpointTrace.tla (monitor + strict).
+// records them for MidpointTrace.tla (monitor + strict).  Calls from several
+// goroutines at once: c02conc_test.go.
 package c02
 
 import (
@@ -58,6 +59,18 @@ type rec struct {
 	FtmTs2 int64   `json:"ftmts2"`
 	MedTs2 int64   `json:"medts2"`
 	ErrNil bool    `json:"errnil"`
+	// the call did not return (recovered panic); set by the concurrent driver
+	Panicked bool `json:"panicked"`
+	// concurrent rounds (c02conc_test.go): the call of operation Cop ran while
+	// NCall-1 other goroutines were calling on their own inputs; Reps calls of
+	// the round gave exactly this record
+	Conc    bool   `json:"conc"`
+	Round   int    `json:"round"`
+	Caller  int    `json:"caller"`
+	NCall   int    `json:"ncall"`
+	Cop     string `json:"cop"`
+	Reps    int    `json:"reps"`
+	Clamped bool   `json:"clamped"`
 }
 
 func TestC02(t *testing.T) {
